@@ -203,6 +203,10 @@ class Engine:
             ev = canon_event(data)
             rec.got.append(ev)
             rec.got_op.append(self.opi)
+            if has_absent(list(ev.values())) or any(
+                isinstance(v, dict) and has_absent(v.get("values", [])) for v in ev.values()
+            ):
+                self.violate("C16.no_absent", {"probe": rec.id, "sel": rec.strs, "event": ev})
 
         if rec.obj is not None:
             rec.obj.subscribe(on_next)
